@@ -45,6 +45,7 @@ class Report:
         self.samples = []
         self.violations = []       # dicts: {key, what, replay}
         self.known_hits = {}
+        self.foreign_examples = []
         self.foreign = {}          # divergences owned by another property (not this check's business)
         self.non_decisive = 0
         self.assumptions = []
@@ -77,8 +78,10 @@ class Report:
         if len(self.samples) < limit:
             self.samples.append(obj)
 
-    def foreign_divergence(self, owner):
+    def foreign_divergence(self, owner, detail=None):
         self.foreign[owner] = self.foreign.get(owner, 0) + 1
+        if detail is not None and len(self.foreign_examples) < 5:
+            self.foreign_examples.append(detail)
 
     def violation(self, key, what, payload):
         """key identifies the class of failure (for known-finding matching)."""
@@ -113,6 +116,7 @@ class Report:
             "tlc_runs": self.tlc_runs,
             "action_coverage": self.action_coverage,
             "foreign_divergences_skipped": self.foreign,
+            "foreign_divergence_examples": self.foreign_examples,
             "non_decisive_skipped": self.non_decisive,
             "known_findings_met": self.known_hits,
             "bounds": self.bounds,
@@ -126,6 +130,11 @@ class Report:
             json.dump(ev, fh, indent=1, default=repr)
         for key, k in self.known_hits.items():
             print("KNOWN-FINDING: property=%s %s (%s; met %d times)" % (self.prop, k["what"], key, k["n"]))
+        if self.foreign:
+            # not this property's business, but nothing downstream of the divergence could be judged here
+            print("FOREIGN-DIVERGENCE: property=%s %d cases left the specification first on a field owned by %s "
+                  "(those checks decide them; this check judged the remaining cases only)"
+                  % (self.prop, sum(self.foreign.values()), ", ".join(sorted(self.foreign))))
         for v in self.violations:
             print("VIOLATION property=%s replay=%s" % (self.prop, v["replay"]))
             print("  %s (x%d): %s" % (v["key"], v["n"], v["what"]))
